@@ -6,11 +6,11 @@ import json, os, subprocess, sys, shutil, re
 pid, n = sys.argv[1], sys.argv[2]
 props = sys.argv[3:]
 src = f"/tmp/seeded_out/{pid}/change{n}"
-wt = f"/tmp/wt_{pid}"
+wt = "/tmp/wt_eval"  # one shared scratch worktree (created by the caller: git -C /repo worktree add --detach /tmp/wt_eval HEAD)
 meta = json.load(open(f"{src}/meta.json"))
 if not props:
     props = [meta["property"][:3]] if pid[0] == "A" else [pid[:3]]
-demo_cmd = meta["demo_cmd"]
+demo_cmd = meta["demo_cmd"].replace(f"/tmp/wt_{pid}", wt)
 def sh(cmd, cwd=None, timeout=1800):
     p = subprocess.run(cmd, shell=True, cwd=cwd, stdout=subprocess.PIPE, stderr=subprocess.STDOUT, text=True, timeout=timeout)
     return p.returncode, p.stdout
